@@ -18,7 +18,7 @@ RULE = ("Hypothesis-generated OMEN models (n-gram 2..5, alphabet 2-4 symbols inc
         "generate(level) / generate_partial(level, j) / fresh_optimizer / change_cache_length. Oracle: an independent DFS "
         "enumerator (pv/omen_ref.py): emitted list has no duplicates, its set equals the reference set, then None is reported; in cache_histories the emitted SEQUENCE (and every abandoned run's prefix) must also equal what a generator with an empty cache emits - a resumed session continues by position with an empty cache. "
         "Non-trivial = the level has >=2 strings, one of length >= n+1, and the model has a dead-end or unaffordable context; "
-        "distinct = hash of (model, level, history position).")
+        "distinct = hash of (model, level, history position). Scale part large_cache: a model with 17 576 initial n-grams (nearly all dead ends) run through 18 levels with one shared cache that grows beyond 2^18 results; every level against the reference and against an empty-cache generator.")
 ASSUMPTIONS = ["every IP / CP n-gram is listed once (the trainer's format)", "at least one IP and one length have a level below 10",
                "levels whose reference set exceeds 30000 strings, or whose prefix space (partial strings within the level budget) exceeds 200000, are inconclusive: skipped and counted"]
 
@@ -305,6 +305,47 @@ def replay_history(case, rec):
                 raise Violation('order_depends_on_cache', f'abandoned run of level {op[1]}: {got} is not how a generator with an empty cache starts the level', case)
 
 
+# ---------------------------------------------------------------- scale: a cache of several hundred thousand results
+def large_cache_model():
+    """26^3 = 17 576 initial n-grams (as a real model has: Default lists 103 316), nearly all of them dead ends, so that every
+    (initial n-gram, length, level) costs one cached negative result and few strings are generated."""
+    import itertools
+    letters = 'abcdefghijklmnopqrstuvwxyz'
+    ctx = [''.join(t) for t in itertools.product(letters, repeat=3)]
+    live = ['abc', 'bcd', 'cda', 'dab', 'bca', 'cab', 'abd', 'bda']
+    cp = [[k % 2, c + ch] for c in live for k, ch in enumerate('abcd') if (c + ch)[1:] in live]
+    return {'ngram': 4, 'alphabet': list(letters), 'ip': [[i % 3, c] for i, c in enumerate(ctx)], 'ep': [[0, c] for c in live], 'cp': cp,
+            'ln': [10, 10, 10, 0, 0, 1, 1] + [10] * 14}
+
+
+def prop_large_cache(case, rec):
+    from lib_guesser.omen.optimizer import Optimizer
+    _REC[0] = None
+    om = large_cache_model()
+    grammar = load_model(om, case)
+    ref_model = omen_ref.from_model_dict(om)
+    opt = Optimizer(max_length=4)
+    fresh = {}
+    for step, level in enumerate(case['levels']):
+        sub = dict(case, upto=step)
+        ref = omen_ref.enumerate_level(ref_model, level, cap=30000)
+        if ref is None:
+            raise core.HarnessError('large_cache model: level %d too large for the reference' % level)
+        got, _ = drain(sub, grammar, level, opt, nref=len(ref))
+        entries = sum(len(v) for d in opt.tmto_lookup for v in d.values()) if hasattr(opt, 'tmto_lookup') else -1
+        rec.case({'level': level, 'strings': len(ref), 'cached_results': entries}, True, ['cache_of_more_than_262144_results' if entries > 262144 else 'cache_growing'],
+                 key=['large_cache', step, level])
+        compare(sub, level, got, ref, f'shared cache holding {entries} results, after levels {case["levels"][:step]},')
+        if level not in fresh:
+            fresh[level] = drain(sub, grammar, level, Optimizer(max_length=4), nref=len(ref))[0]
+        if got != fresh[level]:
+            raise Violation('order_depends_on_cache', f'level {level} with a cache of {entries} results: same strings as with an empty cache, other order', sub)
+
+
+def run_large_cache(rec, seed, shard, nshards, tier):
+    prop_large_cache({'levels': [0, 1, 2, 3, 4, 5, 6, 7, 2, 3, 4, 6, 8, 1, 5, 9, 0, 3]}, rec)
+
+
 def run_histories(rec, seed, shard, nshards, tier):
     _REC[0] = rec
     n = {'quick': 60, 'thorough': 600}[tier]
@@ -312,6 +353,7 @@ def run_histories(rec, seed, shard, nshards, tier):
 
 
 PARTS = [
+    Part('large_cache', run_large_cache, prop_large_cache, {'quick': 1, 'thorough': 1}),
     Part('levels', run_levels, prop_levels, {'quick': 8, 'thorough': 16}),
     Part('cache_histories', run_histories, replay_history, {'quick': 8, 'thorough': 16}),
 ]
